@@ -72,20 +72,21 @@ def check_case(spec: dict) -> dict:
         elif t not in internal_nodes:
             ext_imports.add((u, t))
     for f, line in spec.get("raw_lines", []):
-        m = re.match(r"from (\.+)([\w.]*) import (\w+)$", line)
+        m = re.match(r"from (\.+)([\w.]*) import (\w+|\*)$", line)
         u = PS.dotted(root, f)
         if not m or u not in internal:
             continue
         pkg = u.split(".")[:-1]
         base = pkg[: len(pkg) - (len(m.group(1)) - 1)] + ([m.group(2)] if m.group(2) else [])
-        for t in (".".join(base + [m.group(3)]), ".".join(base)):
+        star = m.group(3) == "*"  # a star is never a module name: the statement imports the package itself
+        for t in ((".".join(base),) if star else (".".join(base + [m.group(3)]), ".".join(base))):
             if t in internal:
                 if t != u and not M.is_strict_desc(u, t):
                     int_imports.add((u, t))
                 break
         else:
             # resolves outside module_path: the scanner cannot know whether it is a module, it is an external name
-            ext_imports.add((u, ".".join(base + [m.group(3)])))
+            ext_imports.add((u, ".".join(base if star else base + [m.group(3)])))
     opt = spec["option"]
     kw = {}
     if opt["mode"] != "exclude":
@@ -155,9 +156,11 @@ def check_case(spec: dict) -> dict:
             need_nodes = M.closure({t for _, t in retained})
             if not need_nodes <= set(rn):
                 v(f"external-missing/{opt['mode']}", f"option {opt}: imported externals/ancestors missing {sorted(need_nodes - set(rn))}", mode=opt["mode"])
-            if not retained <= set(ri):
-                v(f"external-import-missing/{opt['mode']}", f"option {opt}: imports missing {sorted(retained - set(ri))}", mode=opt["mode"])
-            still = {t for t in dropped if t in rn} | {n for n in ext_nodes if excluded(n)}
+            if not retained <= ri_raw:
+                v(f"external-import-missing/{opt['mode']}", f"option {opt}: imports missing {sorted(retained - ri_raw)}", mode=opt["mode"])
+            # (packages above module_path are always nodes of the graph, imported or not: only their import can vanish)
+            still = {t for t in dropped if t in rn and t not in internal_nodes} | {n for n in ext_nodes if excluded(n)}
+            still |= {t for u, t in ext_imports if excluded(t) and (u, t) in ri_raw}
             if still:
                 v(f"excluded-external-present/{opt['mode']}", f"option {opt}: excluded externals still present {sorted(still)}", mode=opt["mode"])
             allowed = M.closure({t for _, t in ext_imports})
@@ -206,7 +209,7 @@ def cases(draw):
     raw = []
     for f in tree["pyfiles"]:
         if draw(st.integers(0, 5)) == 0:
-            raw.append([f, draw(st.sampled_from(["from . import helper", "from . import handlers_fn", "from .m import func" if (f.rsplit('/', 1)[0] + '/m.py' if '/' in f else 'm.py') in tree["pyfiles"] else "from . import thing"]))])
+            raw.append([f, draw(st.sampled_from(["from . import helper", "from . import handlers_fn", "from . import *", "from .. import *" if f.count("/") >= 1 else "from . import *", "from .m import func" if (f.rsplit('/', 1)[0] + '/m.py' if '/' in f else 'm.py') in tree["pyfiles"] else "from . import thing"]))])
     tree["raw_lines"] = raw
     ext_targets = [t for f, t in tree["imports"] if t not in internal and PS.dotted(tree["root"], f) in internal]
     mode = draw(st.sampled_from(["exclude", "include", "include-glob", "include-glob", "include-regex", "include-regex"]))
@@ -235,7 +238,8 @@ FIXED = {
                 ["a/handlers/h.py", "a.handlers"], ["a/handlers/h.py", "proj.util.u"], ["ab/m.py", "proj_x.y"], ["ab/m.py", "proj.a.handlers.h"],
                 ["util/u.py", "util"], ["util/u.py", "xml.etree.ElementTree"], ["handlers.py", "proj.ab.m"], ["a/m.py", "proj.ab.m"],
                 ["a/m.py", "pro"], ["main.py", "projx.y"]],
-    "raw_lines": [["a/m.py", "from . import helper"], ["a/handlers/h.py", "from .. import thing"]],
+    "raw_lines": [["a/m.py", "from . import helper"], ["a/handlers/h.py", "from .. import thing"], ["a/handlers/h.py", "from .. import *"],
+                  ["util/u.py", "from . import *"]],
 }
 GLOBS = ["*handlers", "handlers", "logging*", "logging", "logging.*", "*a*", "os*", "os", "*util*", "util", "proj*", "proj_x*", "*.y", "*", "pro",
          "xml.etree*", "*ElementTree", "a.*", "*.m", "proj.ab", "proj", "xml", "xml.etree", "proj.a"]
